@@ -391,7 +391,7 @@ class Gen:
                     opt_substs.append((m.group(1).replace('\\"', '"').replace('\\n', '\n'), m.group(2).replace('\\"', '"').replace('\\n', '\n'), m.group(3) or 'R5')); continue
                 m = re.match(r'subst\s+"(.*)"\s*=>\s*"(.*)"(?:\s+(R\d))?$', dd)
                 if m:
-                    substs.append((m.group(1).replace('\\"', '"'), m.group(2).replace('\\"', '"'), m.group(3) or 'R5')); continue
+                    substs.append((m.group(1).replace('\\"', '"').replace('\\n', '\n'), m.group(2).replace('\\"', '"').replace('\\n', '\n'), m.group(3) or 'R5')); continue
                 m = re.match(r'header\s+"(.*)"\s*=>\s*"(.*)"$', dd)
                 if m:
                     hsubsts.append((m.group(1).replace('\\n', '\n'), m.group(2).replace('\\n', '\n'))); continue
@@ -442,6 +442,48 @@ class Gen:
         # R2 closures
         if closures:
             cl = find_closures(bmask, 0, len(bmask))
+
+            def _pnames(txt):
+                # parameter names of a closure parameter list `|a, b: T|` (patterns other than identifiers -> '?')
+                inner = txt.strip()
+                inner = inner[inner.find('|') + 1:inner.rfind('|')]
+                out, depth, cur = [], 0, ''
+                for ch in inner:
+                    if ch in '(<[':
+                        depth += 1
+                    elif ch in ')>]':
+                        depth -= 1
+                    if ch == ',' and depth == 0:
+                        out.append(cur); cur = ''
+                    else:
+                        cur += ch
+                if cur.strip():
+                    out.append(cur)
+                names = []
+                for x in out:
+                    x = x.split(':')[0].strip()
+                    x = re.sub(r'^(mut|ref)\s+', '', x)
+                    names.append(x if re.match(r'^\w+$', x) else '?')
+                return names
+            src_names = [_pnames(bmask[a0:b0]) for (a0, b0) in cl]
+            # a directive is anchored by ordinal; when the ordinal no longer carries the directive's parameter names
+            # (a closure was inserted or removed before it) and exactly one closure does, it is re-anchored there
+            remap = {}
+            for k, rep in closures.items():
+                m_hdr = re.match(r'\s*(?:move\s+)?(\|[^|]*\|)', rep)
+                want = _pnames(m_hdr.group(1)) if m_hdr else None
+                if want is None or '?' in want or any(w.startswith('_u') or w.startswith('_unit') for w in want):
+                    continue
+                if k <= len(cl) and (src_names[k - 1] == want or src_names[k - 1] == ['_'] * len(want)):
+                    continue
+                cands = [i + 1 for i, nm in enumerate(src_names) if nm == want]
+                if len(cands) == 1:
+                    remap[k] = cands[0]
+            if remap and len(set(remap.get(k, k) for k in closures)) == len(closures):
+                closures = {remap.get(k, k): v for k, v in closures.items()}
+                hoist = {remap.get(k, k): v for k, v in hoist.items()}
+                optional = {remap.get(k, k) for k in optional}
+                self.rewrites.append(('R2', label, 'closure ordinals re-anchored by parameter name', str(remap)))
             for k, rep in closures.items():
                 if k > len(cl):
                     if k in optional:
